@@ -172,7 +172,7 @@ ODD_TEXTS = [
     'select * from t where a = 1 and', 'select a, from t', 'select , a', 'create table t (', 'declare', 'if', 'end if',
     'select 1 union', 'with', 'with x as', 'with x as (', 'a<', '<', '-', 'a -', '- a', 'a - -1', "''", '""', '``',
     "'''", "''''", "'a''", 'e\'\\\'\'', '\\', '\\d', 'go', 'GO', 'select 1\nGO\nselect 2', 'select 1 GO select 2', 'select 1 go select 2',
-    'select a/* c */as b', 'select 1; select 2',
+    'select a/* c */as b', 'select 1; select 2', 'a b c d e f x := y := z;',
 ]
 
 
@@ -190,7 +190,7 @@ def _render(lexemes, rnd, comments=False, crlf=False, p_cm=0.12, rare=False, hin
                 sep = ''
             if comments and rnd.random() < p_cm:
                 r = rnd.random()
-                if rare and r < 0.04:
+                if rare and r < 0.012:
                     cm = rnd.choice(_CM_ODD)
                 elif hints and r < 0.16:
                     cm = rnd.choice(_CM_HINT)
@@ -311,16 +311,16 @@ def cases_C06(tier='quick', seed=0):
             yield (t, f)
     mult = 1 if tier == 'quick' else 6
     k = 0
-    for t in _grammar_texts(seed * 10 + 1, 2200 * mult, comments=False, depth=2):
+    for t in _grammar_texts(seed * 10 + 1, 1700 * mult, comments=False, depth=2):
         for f in _c06_optsets_for(k, fixed, rnd):
             yield (t, f)
         k += 1
-    for t in _grammar_texts(seed * 10 + 2, 1300 * mult, comments=True, depth=2, crlf_share=0.25, rare=True,
+    for t in _grammar_texts(seed * 10 + 2, 1000 * mult, comments=True, depth=2, crlf_share=0.25, rare=True,
                             hints=True):
         for f in _c06_optsets_for(k, fixed, rnd):
             yield (t, f)
         k += 1
-    for t in _soup_texts(seed * 10 + 3, 1500 * mult):
+    for t in _soup_texts(seed * 10 + 3, 1200 * mult):
         for f in _c06_optsets_for(k, fixed, rnd, n_fixed=3, n_big=1):
             yield (t, f)
         k += 1
@@ -932,8 +932,8 @@ def cases_C10(tier='quick', seed=0):
         yield (t, ri)
     mult = 1 if tier == 'quick' else 8
     k = 0
-    fams = [dict(seed=seed * 10 + 1, n=2600 * mult, comments=False, depth=2),
-            dict(seed=seed * 10 + 2, n=1400 * mult, comments=True, depth=2, crlf_share=0.2, rare=True)]
+    fams = [dict(seed=seed * 10 + 1, n=2000 * mult, comments=False, depth=2),
+            dict(seed=seed * 10 + 2, n=1000 * mult, comments=True, depth=2, crlf_share=0.2, rare=True, hints=True)]
     for fam in fams:
         for t in _grammar_texts(**fam):
             yield (t, sw)
